@@ -80,7 +80,7 @@ def run(chk, repo):
         'C05.e adding a GVF file only appends pointers',
     ]
     chk.not_decided = ['that every added peptide is attributable to the relaxation', 'interactions through the complexity limits',
-                       'W2F / SECT flags also enlarge the per-transcript denylist (see note)']
+                       'W2F / SECT flags also enlarge the per-transcript denylist: reported by C05.g as known findings']
 
     # summaries of predicate methods
     summaries = {}
@@ -277,6 +277,21 @@ def run(chk, repo):
     # ------------------------------------------------------------------ f (shared with C06.a)
     from rules.C06 import rule_drain
     rule_drain(chk, repo, 'C05.f')
+
+    # ------------------------------------------------------------------ g
+    chk.rule('C05.g', 'R-POLARITY: add-only flags must not parameterise the per-transcript denylist (reject context)', 2)
+    wr = repo.func('cli.call_variant_peptide:call_variant_peptides_wrapper')
+    chk.uses(wr)
+    dl = [n for n in walk_no_nested(wr.node) if isinstance(n, ast.Assign) and unparse(n.targets[0]) == 'denylist' and call_name(n.value) == 'call_canonical_peptides']
+    if len(dl) != 1:
+        raise AnalysisError('anchor=call_variant_peptides_wrapper: denylist = call_canonical_peptides(...) not found')
+    for kw, flag in (('w2f', 'w2f_reassignment'), ('truncate_sec', 'truncate_sec')):
+        a = kwarg(dl[0].value, kw)
+        const_false = isinstance(a, ast.Constant) and a.value is False
+        chk.ob('C05.g', f"denylist builder receives {kw}=False", repo.loc(wr, dl[0]), a is None or const_false,
+               f"the denylist (peptides that are REJECTED) is built with {kw}={unparse(a) if a is not None else None}: switching the flag on adds the "
+               f"{'W>F images' if kw == 'w2f' else 'Sec-truncated forms'} of reference peptides to the denylist, so a variant peptide equal to one of them "
+               "disappears when the flag is enabled (non-monotone)", key=f"{wr.qual}::denylist-flag::{kw}", fn=wr.qual)
 
 
 def flag_polarity(e, flag):
